@@ -908,7 +908,8 @@ func (sp *StreamParser) ExecCmd(cb RdbObjExecutor) {
 		if sp.rtype >= RDBTypeStreamListPacks2 {
 			cgOffset = r.ReadLength64P() // offset
 			if util.VersionGE(sp.targetRedisVersion, "7", util.VersionMajor) {
-				xgcArgs = append(xgcArgs, "ENTRIESREAD", cgOffset)
+				// entries_read is a signed counter: "unknown" is -1 (SCG_INVALID_ENTRIES_READ)
+				xgcArgs = append(xgcArgs, "ENTRIESREAD", int64(cgOffset))
 			}
 		} else {
 			if util.VersionGE(sp.targetRedisVersion, "7", util.VersionMajor) {
@@ -940,7 +941,8 @@ func (sp *StreamParser) ExecCmd(cb RdbObjExecutor) {
 					}
 					return uint64(SCG_INVALID_ENTRIES_READ)
 				}()
-				xgcArgs = append(xgcArgs, "ENTRIESREAD", cgOffset)
+				// entries_read is a signed counter: "unknown" is -1 (SCG_INVALID_ENTRIES_READ)
+				xgcArgs = append(xgcArgs, "ENTRIESREAD", int64(cgOffset))
 			}
 		}
 
